@@ -15,13 +15,14 @@ RULE = (
     "bound as the body of f\"..\", f'..', f\"\"\"..\"\"\", rf\"..\"; the structured product of all 12 prefix spellings x 4 "
     "quote styles x literal parts {plain, escape, {{, }}, other quote, non-ASCII} x field forms {a, a!r, a!x, a!rr, a=, "
     "a = , a:>3, a:{w}, a:{w}.{p}, a!r:^{w}, nested f-string, multi-line field, lambda / dict in parentheses} up to the "
-    "part bound; adjacency with plain strings, other f-strings and a following '{'; every f-string statement of the "
+    "part bound; f-strings nested two and three deep in every combination of the four quote styles with 12 conversion / "
+    "format-spec forms (specs holding the other styles' quote characters) at every level; adjacency with plain strings, other f-strings and a following '{'; every f-string statement of the "
     "corpus. Domain: ast.parse accepts. Oracle: FSTRING_START/MIDDLE/END and expression tokens equal CPython's "
     "tokenize, and the JoinedStr / FormattedValue / Constant tree (values and spans) equals ast.parse. Non-trivial = "
     "accepted by CPython and containing at least one replacement field or escape (distinct texts)."
 )
-BOUND = {"quick": "bodies^<=5 in f\"..\", ^<=4 in the other three carriers; structured product up to 2 parts; adjacency; corpus",
-         "thorough": "bodies^<=6 in f\"..\", ^<=5 in the others; structured product up to 3 parts; adjacency; corpus"}
+BOUND = {"quick": "bodies^<=5 in f\"..\", ^<=4 in the other three carriers; structured product up to 2 parts; nesting depth 2 (with literal parts) and 3; adjacency; corpus",
+         "thorough": "bodies^<=6 in f\"..\", ^<=5 in the others; structured product up to 3 parts; nesting depth 2 (with literal parts) and 3; adjacency; corpus"}
 ASSUMPTIONS = ["CPython 3.12.1 tokenize / ast.parse are the reference (incl. its habit of ending a format spec that holds a nested field with an empty Constant)"]
 
 PREFIXES = ["f", "F", "rf", "fr", "Rf", "fR", "rF", "Fr", "RF", "FR", "fR", "Rf"]
@@ -47,7 +48,33 @@ def units(tier: str) -> list[tuple]:
         us.append(("prod", i, 2 if q else 3))
     us.append(("adj",))
     us.append(("corpus",))
+    for i in range(len(QUOTES)):
+        us.append(("nest", i, 2))
+        us.append(("nest", i, 3))
     return us
+
+
+# nested f-strings (PEP 701): every quote style inside every other, with format specs that hold quote characters
+NEST_LITS = ["", "x", "OTHERQ"]
+NEST_SPECS = ["", "!r", ":>3", ":{w}", ':"^5', ":'^5", ":'", ':"', ":'\"^3", "!r:\">{w}", "=", ":=3"]
+NEST_TAILS = ["", "y"]
+
+
+def _nest(outer: int, depth: int) -> Iterator[str]:
+    def level(d: int, first: int | None) -> Iterator[str]:
+        qs = [QUOTES[first]] if first is not None else QUOTES
+        if d == 0:
+            yield "a"
+            return
+        full = depth == 2
+        for q in qs:
+            for inner in level(d - 1, None):
+                for spec in NEST_SPECS:
+                    for l1 in (NEST_LITS if full else [""]):
+                        for l2 in (NEST_TAILS if full else [""]):
+                            yield f"f{q}{_lit(l1, q)}{{{inner}{spec}}}{l2}{q}"
+    for s in level(depth, outer):
+        yield s + "\n"
 
 
 def _lit(l: str, quote: str) -> str:
@@ -84,6 +111,8 @@ def cases(unit: tuple) -> Iterator[str]:
             for F, G in itertools.product(fs, repeat=2):
                 s = t.replace("{{", "\0").replace("}}", "\1").replace("{F}", F).replace("{G}", G).replace("\0", "{").replace("\1", "}")
                 yield s if s.endswith("\n") else s + "\n"
+    elif k == "nest":
+        yield from _nest(unit[1], unit[2])
     elif k == "corpus":
         for s in corpus.python_stmts():
             if run.has_fstring(s):
